@@ -12,12 +12,16 @@ POOL_OK = gens.VALID_FILTERS + ["a/b/c eq 1", "x/y/z/w ne null", "a/b/c/d/e eq a
                                 "geo.distance(a, b) lt 1", "geo.intersects(a, b)", "geo.length(a) gt 0", "contains(a, 'x')", "length(n) eq 1", "f.g(x=1, y=2, z=3)",
                                 "k/p/q/any(t: t/u/v eq 1)", "a/b/c eq a/b/c",
                                 "status in ('new', 'open', 'held', 'done', 'void', 'open', 'new')", "id in (10, 20, 30, 40, 50, 60, 10)", "f.g(unit=0, radius=1, alpha=2, unit2=3)",
-                                "x in (a, b, c, a, geo.b, b)", "concat(concat(a, b), concat(b, a)) eq 'zz'"]
+                                "x in (a, b, c, a, geo.b, b)", "concat(concat(a, b), concat(b, a)) eq 'zz'",
+                                "tags/any(t: t/name eq 'x')", "c/any(x: x eq 1)", "items/all(i: i/tags/any(t: t eq 'x'))", "c/all(x: x/y/any(t: t/u eq x/v))"]
 POOL_BAD = ["a eq", "a eq 1 )", "(((", "a/b/c/d eq", "foo(1)", "distance(a, b) lt 1", "intersects(a, b)", "geo.contains(a, 'x')", "concat(1)", "substring(a)",
             "a ½", "'abc", "a eq 'x", "x/any(", "a in (1", "f.g(x=1, 2)", "a/b/c/", "not", "1 2", "now(1)", "geo.length()", "contains(a)", "a/b/c/d eq ½",
             # two errors in one string: a call that would be rejected, then a syntax / tokenising error later in the text (and the other way round)
             "frobnicate(name) eq 1 and )", "substring(name) eq 'a' and price gt #5", "toupper(a, b) eq 'X' or (", "geo.nosuch(a) and ½", "concat(1) eq 2 eq", "now(1) ) (", ") and frobnicate(1)",
-            "length() eq 1 and 'x", "x/any(t: nosuch(t) eq 1 and", "f.g(length()) )"]
+            "length() eq 1 and 'x", "x/any(t: nosuch(t) eq 1 and", "f.g(length()) )",
+            # an error strictly INSIDE a lambda body (function error, tokenising error, syntax error), nested too; the probes re-declare the same variables
+            "tags/any(t: foo(t/name) eq 1)", "items/all(i: i/tags/any(t: substring(t) eq 'x'))", "tags/any(t: t/name eq #)", "c/any(t: t eq", "c/all(x: x/y/any(t: length() eq 1))",
+            "k/any(t: t/u eq 1 and geo.nosuch(t))", "c/any(x: concat(x) eq 'a')", "c/any(x: x eq 1) and c/any(x: nosuch(x))"]
 # every OData built-in (names and arities from the specification, typed in here - NOT read from the library's table, which is what is being probed)
 # called with 0..4 arguments: acceptance of a call may not depend on which parts of the library were imported or used before
 BUILTIN_ARITIES = {"concat": (2, 2), "contains": (2, 2), "endswith": (2, 2), "indexof": (2, 2), "length": (1, 1), "startswith": (2, 2), "substring": (2, 3), "hassubset": (2, 2),
@@ -27,7 +31,7 @@ BUILTIN_ARITIES = {"concat": (2, 2), "contains": (2, 2), "endswith": (2, 2), "in
                    "geo.distance": (2, 2), "geo.intersects": (2, 2), "geo.length": (1, 1)}
 _ARGS = ["a", "' '", "b", "c"]
 ARITY_PROBES = [n + "(" + ", ".join(_ARGS[:k]) + ")" for n in BUILTIN_ARITIES for k in range(0, 5)]
-PROBES = POOL_OK[:60] + POOL_BAD + ARITY_PROBES
+PROBES = POOL_OK + POOL_BAD + ARITY_PROBES
 
 def outcome(lx, ps, text):
     return impl.real_parse(text, lx, ps)
@@ -129,6 +133,18 @@ def run(ctx):
         probe = rng.choice(PROBES)
         mode = rng.choice(["shared-both", "shared-both", "shared-parser", "shared-lexer", "new-after"])
         cases.append((tuple(hist), probe, mode))
+    # every ordered pair of filters with navigation paths of three or more segments (paths that share inner segments; state keyed on path pieces)
+    deep = [f for f in POOL_OK if f.count("/") >= 2] + ["a/b/c/d eq", "x/b/c eq 1", "a/b/c/d eq 1", "x/y/b/c/d ne null"]
+    for h1 in deep:
+        for pr in deep:
+            if h1 != pr and not pr.endswith(" eq"):
+                cases.append(((h1,), pr, "shared-parser"))
+    # every input that fails INSIDE a lambda body, followed by every probe that declares a lambda variable (scope bookkeeping must not outlive a failed parse)
+    lam_poison = [p for p in POOL_BAD if "any(" in p or "all(" in p]
+    lam_probe = [p for p in POOL_OK if "any(" in p or "all(" in p][-8:] + ["tags/any(t: foo(t))", "c/any(x: nosuch(x))"]
+    for hp in lam_poison:
+        for pr in lam_probe:
+            cases.append(((hp,), pr, "shared-both")); cases.append(((hp, hp), pr, "shared-parser"))
     # accumulation: long runs of ONE kind of input (state that only builds up — counters, caches, stacks — needs many steps of the same kind), and
     # single extreme inputs (deep nesting, long chains), each followed by probes that use parentheses, calls, lists and lambdas
     OPEN = ["(a eq", "f.g(", "((a", "x/any(t: t eq", "(½", "a in (1, (2", "not (a eq 1", "concat(a, (b", "x/any(t: t/y/all(u: (u eq"]
